@@ -164,6 +164,21 @@ fn run_g<A: Sx>(c: &Case, out: &mut Out) {
         )
     });
 
+    // ---- windows / chunks of a width near usize::MAX: never an item, never a panic, however often polled ---
+    out.stage = "windows/chunks with an enormous width";
+    for w in [usize::MAX, usize::MAX - 1, usize::MAX / 2 + 1, (usize::MAX / 2) + 2, usize::MAX - n] {
+        let r = out.catch(|| {
+            let mut i = v.windows(w);
+            let a = [i.next().is_none(), i.next().is_none(), i.next().is_none(), i.nth(0).is_none(), i.next().is_none()];
+            let mut j = v.chunks(w);
+            let b = [j.next().is_none(), j.next().is_none(), j.next().is_none(), j.nth(1).is_none(), j.next().is_none()];
+            (a, b, v.windows(w).count(), v.chunks(w).count())
+        });
+        out.check(r == Ok(([true; 5], [true; 5], 0, 0)), || {
+            (format!("{cn}/windows/enormous-width-misbehaves"), format!("windows({w:#x}) / chunks({w:#x}) over length {n}, polled five times: {:?}", r))
+        });
+    }
+
     // ---- windows / chunks -------------------------------------------------------------
     let spw = 64 / A::BITS as usize;
     let widths: Vec<usize> = if n <= 3 * spw + 2 {
